@@ -7,6 +7,7 @@ import (
 	"fmt"
 	"math/big"
 	"os"
+	"path/filepath"
 	"runtime"
 	"sort"
 	"testing"
@@ -14,11 +15,13 @@ import (
 
 	sdkmath "cosmossdk.io/math"
 	abci "github.com/cometbft/cometbft/abci/types"
+	"github.com/cosmos/cosmos-sdk/telemetry"
 	sdk "github.com/cosmos/cosmos-sdk/types"
 	authtypes "github.com/cosmos/cosmos-sdk/x/auth/types"
 	stakingkeeper "github.com/cosmos/cosmos-sdk/x/staking/keeper"
 	stakingtypes "github.com/cosmos/cosmos-sdk/x/staking/types"
 	"github.com/ethereum/go-ethereum/common"
+	gethmetrics "github.com/ethereum/go-ethereum/metrics"
 	"github.com/stretchr/testify/require"
 
 	itutiltypes "github.com/EscanBE/evermint/v12/integration_test_util/types"
@@ -36,20 +39,32 @@ type nodeCfg struct {
 	Procs   int        `json:"gomaxprocs"` // 0 = leave as is
 	CheckTx bool       `json:"mempool_activity"`
 	Traffic trafficCfg `json:"request_traffic"` // what the node serves besides executing blocks (traffic_test.go)
+	// AppToml > 0: the replica runs on an application built through the genuine start-up path (hx/twin_apptoml.go:
+	// app.toml written with evermint's template, read back with viper, cmd/evmd newApp's options, a real logger,
+	// store tracing, crisis invariant checks, state-sync snapshots, query services registered) from the first block on,
+	// every restart with the next variant.  0 = the application the integration suite's constructor built.
+	AppToml int `json:"app_toml_variant"`
 }
 
 // what an operator could put into app.toml / flags; replica 0 is the plain node
 func nodeCfgs(denom string) []nodeCfg {
 	return []nodeCfg{
 		{MinGas: "", Tracer: "", Procs: 0, CheckTx: false},
-		{MinGas: "1000000000000000" + denom, Tracer: "access_list", Procs: 1, CheckTx: true, Traffic: trafficCfg{Historic: true}},
-		{MinGas: "7" + denom, Tracer: "struct", Procs: 4, CheckTx: true, Traffic: trafficCfg{Window: true, Simulate: true, Ghost: true, Reverse: true}},
-		{MinGas: "", Tracer: "json", Procs: 2, CheckTx: true, Traffic: trafficCfg{Historic: true, Ghost: true}},
-		{MinGas: "123456789" + denom, Tracer: "markdown", Procs: 8, CheckTx: false, Traffic: trafficCfg{Window: true}},
-		{MinGas: "", Tracer: "access_list", Procs: 3, CheckTx: false},
-		{MinGas: "1" + denom, Tracer: "", Procs: 16, CheckTx: true, Traffic: trafficCfg{Historic: true, Window: true, Simulate: true, Ghost: true}},
-		{MinGas: "999999999999999999999" + denom, Tracer: "struct", Procs: 1, CheckTx: true, Traffic: trafficCfg{Historic: true, Reverse: true}},
+		{MinGas: "1000000000000000" + denom, Tracer: "access_list", Procs: 1, CheckTx: true, Traffic: trafficCfg{Historic: true}, AppToml: 1},
+		{MinGas: "7" + denom, Tracer: "struct", Procs: 4, CheckTx: true, Traffic: trafficCfg{Window: true, Simulate: true, Ghost: true, Reverse: true, Proposal: 2}, AppToml: 2},
+		{MinGas: "", Tracer: "json", Procs: 2, CheckTx: true, Traffic: trafficCfg{Historic: true, Ghost: true, Proposal: 1}},
+		{MinGas: "123456789" + denom, Tracer: "markdown", Procs: 8, CheckTx: false, Traffic: trafficCfg{Window: true}, AppToml: 4},
+		{MinGas: "", Tracer: "access_list", Procs: 3, CheckTx: false, Traffic: trafficCfg{Proposal: 2}},
+		{MinGas: "1" + denom, Tracer: "", Procs: 16, CheckTx: true, Traffic: trafficCfg{Historic: true, Window: true, Simulate: true, Ghost: true}, AppToml: 6},
+		{MinGas: "999999999999999999999" + denom, Tracer: "struct", Procs: 1, CheckTx: true, Traffic: trafficCfg{Historic: true, Reverse: true, Proposal: 1}, AppToml: 7},
 	}
+}
+
+// the configuration of the only replica of a child process started with VERIF_TWIN_CHILD_CFG=<variant> (> 0): a node
+// that differs from replica 0 of the parent process in EVERY node-local setting, the process-wide ones included
+// (telemetry enabled with global labels and prometheus retention, go-ethereum metrics)
+func childNodeCfg(variant int) nodeCfg {
+	return nodeCfg{MinGas: "", Tracer: "", Procs: 5, CheckTx: true, Traffic: trafficCfg{Window: true, Simulate: true, Proposal: 2}, AppToml: variant}
 }
 
 type replica struct {
@@ -58,6 +73,7 @@ type replica struct {
 	cfg         nodeCfg
 	firstHeight int64 // oldest height the traffic asks about (committed after the set-up)
 	restarts    int
+	node        *TwinNode // the parsed app.toml + flags the running instance was built from (nil: the suite's constructor)
 }
 
 // ---------------------------------------------------------------- world
@@ -86,7 +102,8 @@ type world struct {
 	modAcc                                               common.Address // an application module account with no coins
 	evmModule                                            string
 
-	nextFresh uint64
+	nextFresh  uint64
+	nextPauper int
 	used      map[common.Address]bool // senders that already have a transaction in the block being generated
 
 	side         *Sidecar
@@ -94,6 +111,8 @@ type world struct {
 	nextDenom    int                      // next pool denomination without a contract
 	newCpcs      []common.Address         // ERC-20 precompiles deployed by message during the history
 	pendingFresh *common.Address          // deployed in the previous block: the next block begins with calls to it
+	home         string                   // root of the replicas' node home directories (app.toml, snapshots)
+	processWide  string                   // what this process enabled process-wide (telemetry, geth metrics)
 }
 
 func e18(n int64) *big.Int { return new(big.Int).Mul(big.NewInt(n), new(big.Int).Exp(big.NewInt(10), big.NewInt(18), nil)) }
@@ -112,9 +131,19 @@ func fixedAddr(tag byte, i int) common.Address {
 	return common.BytesToAddress([]byte{0xC0, 0x01, tag, 0, 0, 0, 0, 0, 0, 0, 0, 0, 0, 0, 0, 0, 0, 0, byte(i >> 8), byte(i)})
 }
 
-func newWorld(t *testing.T, k int, side *Sidecar) *world {
+func newWorld(t *testing.T, k int, side *Sidecar, childCfg int) *world {
 	ref := NewChain(t, time.Time{})
-	w := &world{t: t, ref: ref, side: side, byAddr: map[common.Address]*itutiltypes.TestAccount{}, valRank: map[string]int64{}}
+	w := &world{t: t, ref: ref, side: side, byAddr: map[common.Address]*itutiltypes.TestAccount{}, valRank: map[string]int64{}, home: t.TempDir()}
+	if childCfg > 0 {
+		// what server/start.go does once per process, BEFORE any replica exists: this whole process is a node with telemetry
+		n, err := TwinWriteAppToml(filepath.Join(w.home, "process"), childCfg, ref.Denom(), "", "")
+		require.NoError(t, err)
+		require.NoError(t, TwinStartProcessWide(n))
+		require.True(t, telemetry.IsTelemetryEnabled(), "the node-configuration child must run with telemetry enabled")
+		w.processWide = fmt.Sprintf("telemetry enabled (labels %v, retention %ds), go-ethereum metrics %v", n.Config.Telemetry.GlobalLabels, n.Config.Telemetry.PrometheusRetentionTime, gethmetrics.Enabled)
+	} else {
+		require.False(t, telemetry.IsTelemetryEnabled(), "replica 0's process is the default node: telemetry off")
+	}
 	w.multi, w.sink, w.reverter, w.invalid = fixedAddr(1, 1), fixedAddr(1, 2), fixedAddr(1, 3), fixedAddr(1, 4)
 	w.logger, w.store, w.clock = fixedAddr(1, 5), fixedAddr(1, 6), fixedAddr(1, 7)
 	w.stakingCpc = cpctypes.CpcStakingFixedAddress
@@ -134,9 +163,18 @@ func newWorld(t *testing.T, k int, side *Sidecar) *world {
 	for i := 0; i < k; i++ {
 		c := NewTwinReplica(t, ref, time.Time{})
 		cfg := cfgs[i%len(cfgs)]
-		TwinSetMinGasPrices(c.App, cfg.MinGas)
-		require.NoError(t, TwinSetEvmTracer(c.App, cfg.Tracer))
-		w.reps = append(w.reps, &replica{idx: i, c: c, cfg: cfg})
+		if childCfg > 0 {
+			cfg = childNodeCfg(childCfg)
+		}
+		rep := &replica{idx: i, c: c, cfg: cfg}
+		if cfg.AppToml > 0 {
+			// from here on (set-up blocks included) the replica is an application started the way `evmd start` starts it
+			w.restartNode(rep)
+		} else {
+			TwinSetMinGasPrices(c.App, cfg.MinGas)
+			require.NoError(t, TwinSetEvmTracer(c.App, cfg.Tracer))
+		}
+		w.reps = append(w.reps, rep)
 	}
 	w.lead = w.reps[0].c
 	w.bond = w.lead.Denom()
@@ -183,6 +221,21 @@ func newWorld(t *testing.T, k int, side *Sidecar) *world {
 		rep.firstHeight = rep.c.Height - 1
 	}
 	return w
+}
+
+// restartNode: a new application instance on the replica's database, configured from an app.toml of the replica's
+// next variant (the replica's own minimum-gas-prices and evm.tracer win over the variant's when set)
+func (w *world) restartNode(rep *replica) {
+	variant := rep.cfg.AppToml + 8*rep.restarts
+	n, err := TwinWriteAppToml(filepath.Join(w.home, fmt.Sprintf("replica%d-%d", rep.idx, rep.restarts)), variant, w.ref.Denom(), rep.cfg.MinGas, rep.cfg.Tracer)
+	require.NoError(w.t, err)
+	require.NoError(w.t, TwinRestartNode(rep.c, n))
+	tr, err := TwinGetEvmTracer(rep.c.App)
+	require.NoError(w.t, err)
+	require.Equal(w.t, n.Config.EVM.Tracer, tr, "the restarted instance did not take evm.tracer from its app options")
+	rep.node = n
+	rep.cfg.Tracer = tr // the variant's tracer when the replica has none of its own (runOn silences the printing ones)
+	w.side.Count(fmt.Sprintf("replica_started_from_app_toml:variant_mod8=%d", variant%8))
 }
 
 func (w *world) each(f func(c *Chain)) {
@@ -279,8 +332,8 @@ func (r *replica) runOn(w *world, raws [][]byte, tr *Rng) (res *abci.ResponseFin
 		old := runtime.GOMAXPROCS(r.cfg.Procs)
 		defer runtime.GOMAXPROCS(old)
 	}
-	// the json / markdown tracers print every opcode to the process' stderr / stdout
-	if r.cfg.Tracer == "json" || r.cfg.Tracer == "markdown" {
+	// the json / markdown tracers print every opcode to the process' stderr / stdout, the struct tracer every call's output
+	if r.cfg.Tracer == "json" || r.cfg.Tracer == "markdown" || r.cfg.Tracer == "struct" {
 		so, se := os.Stdout, os.Stderr
 		os.Stdout, os.Stderr = devNull, devNull
 		defer func() { os.Stdout, os.Stderr = so, se }()
@@ -308,6 +361,12 @@ func (r *replica) runOn(w *world, raws [][]byte, tr *Rng) (res *abci.ResponseFin
 			_, _, _ = r.c.App.BaseApp.Simulate(bz)
 			w.side.Count("traffic:simulate_block_tx")
 		}
+	}
+	if tc.Proposal > 0 && (tc.Proposal > 1 || tr.Bool()) {
+		// consensus rounds this node took part in before the block was decided: as proposer of a round (PrepareProposal over
+		// its mempool, here the block's transactions in reverse order plus a probe) and / or as validator (ProcessProposal;
+		// the verdict does not matter: the block was decided by the others).  A node that syncs the block later calls neither.
+		w.proposalTraffic(r, raws, tr)
 	}
 	res, err = TwinFinalizeVoted(r.c, raws)
 	if err != nil {
@@ -338,7 +397,16 @@ func (r *replica) runOn(w *world, raws [][]byte, tr *Rng) (res *abci.ResponseFin
 func (w *world) describeCfgs() []string {
 	var out []string
 	for _, r := range w.reps {
-		out = append(out, fmt.Sprintf("replica %d: min-gas=%q tracer=%q gomaxprocs=%d mempool=%v traffic=%s", r.idx, r.cfg.MinGas, r.cfg.Tracer, r.cfg.Procs, r.cfg.CheckTx, r.cfg.Traffic))
+		d := fmt.Sprintf("replica %d: min-gas=%q tracer=%q gomaxprocs=%d mempool=%v traffic=%s", r.idx, r.cfg.MinGas, r.cfg.Tracer, r.cfg.Procs, r.cfg.CheckTx, r.cfg.Traffic)
+		if r.node != nil {
+			d += " | started from " + r.node.Summary
+		} else {
+			d += " | the integration suite's application (fixed app options, no-op logger)"
+		}
+		if w.processWide != "" {
+			d += " | process-wide: " + w.processWide
+		}
+		out = append(out, d)
 	}
 	return out
 }
